@@ -101,21 +101,29 @@ def model_differs(r, keys, m):
     return None
 
 
-def eval_generic_history(batches, kname, cap, always_spill, tmp):
+def eval_generic_history(batches, kname, cap, always_spill, tmp, early=None):
     """Items added in batches with a full iteration after each batch: every iteration returns all items added so far,
     each once, in non-decreasing key order (iterating is not the end of a sorter's life)."""
     from maflib.sorter import Sorter
     keyf = KEYFS[kname]
     where = {"kind": "iterate-then-add", "batches": [[list(x) for x in b] for b in batches], "key": kname, "capacity": cap, "always_spill": always_spill}
+    if early:
+        # consumer-first pipelines: the iterator object is made (iter(sorter), or enumerate / map / zip over the sorter,
+        # which call iter() at once) BEFORE the batch is added and consumed afterwards; nothing is consumed early, so
+        # every item added by then is part of the iteration
+        where["early"] = early
     s = Sorter(cap, JsonCodec(), keyf, tmp_dir=tmp, always_spill=always_spill)
     fails = []
     added = []
     try:
         for n, b in enumerate(batches):
+            pending = None
+            if early:
+                pending = iter(s) if early == "iter" else (x for _k, x in enumerate(s)) if early == "enumerate" else map(lambda x: x, s)
             for it in b:
                 s += it
                 added.append(it)
-            got = [tuple(x) for x in s]
+            got = [tuple(x) for x in (s if pending is None else pending)]
             if sorted(map(repr, got)) != sorted(map(repr, added)):
                 fails.append(dict(where, what="iteration %d (after %d items in all) does not return every added item exactly once (%d returned)" % (n + 1, len(added), len(got))))
                 break
@@ -140,7 +148,7 @@ def generic_history_cases(ctx, out, tmp):
         n = sum(len(b) for b in batches)
         cap = rng.choice([1, 2, 3, max(1, n), n + 1, n + 3])
         out.evaluations += 1
-        out.failures += eval_generic_history(batches, rng.choice(list(KEYFS)), cap, rng.random() < 0.5, tmp)
+        out.failures += eval_generic_history(batches, rng.choice(list(KEYFS)), cap, rng.random() < 0.5, tmp, early=rng.choice([None, None, "iter", "enumerate", "map"]))
         out.distribution["generic: iterate, add more, iterate again"] += 1
         if n >= 2:
             out.nontrivial.add(repr(("history", batches, cap)))
@@ -753,7 +761,7 @@ def replay_case(ctx, failure):
     if failure.get("kind") == "iterate-then-add" and "batches" in failure:
         import tempfile as _tf
         with _tf.TemporaryDirectory() as tmp:
-            fails = eval_generic_history([[tuple(x) for x in b] for b in failure["batches"]], failure["key"], failure["capacity"], failure["always_spill"], tmp)
+            fails = eval_generic_history([[tuple(x) for x in b] for b in failure["batches"]], failure["key"], failure["capacity"], failure["always_spill"], tmp, early=failure.get("early"))
         print("replay C07: Sorter(capacity %d, always_spill=%s, key %s); batches %s, the sorter iterated to the end after each batch" % (
             failure["capacity"], failure["always_spill"], failure["key"], failure["batches"]))
         for x in fails:
